@@ -209,6 +209,9 @@ func (d *cnDriver) genSpec() cnTxSpec {
 	nonce := uint64(d.acctField(a.name, "n"))
 	kinds := []string{"transfer", "transfer", "burn", "escrow", "escrow", "reclaim", "reclaim", "allow", "withdraw", "amend"}
 	sp := cnTxSpec{Kind: kinds[d.rng.Intn(len(kinds))], Signer: a.name, Nonce: nonce, Gas: 2000, Validity: "ok"}
+	if d.rng.Intn(40) == 0 {
+		sp.Kind = "freshness" // registry.ProveFreshness: changes nothing (refused while the TEE feature is not enabled)
+	}
 	if a.name == "E1" && sp.Kind == "reclaim" {
 		sp.Kind = "escrow" // documented precondition: entity 1 keeps its self-delegation, so one validator stays stake-eligible
 	}
